@@ -194,7 +194,8 @@ theorem ClSafe.out {b : Buf} {i : Nat} {st : PUIntBody} (h : ClSafe b i st) : Cl
 /-- ParseCLenVal: on its own "number too big" exit the offset points back at the value; otherwise as ParseUIntVal -/
 theorem parseCLenVal_safe (b : Buf) (o : Nat) (st : PUIntBody) (h : ClSafe b o st) :
     ClOut b (parseCLenVal b o st).2.2 ∧
-    ((parseCLenVal b o st).2.1 ≠ .numTooBig → ClSafe b (parseCLenVal b o st).1 (parseCLenVal b o st).2.2) := by
+    ((parseCLenVal b o st).2.1 ≠ .numTooBig → ClSafe b (parseCLenVal b o st).1 (parseCLenVal b o st).2.2) ∧
+    (parseCLenVal b o st).1 ≤ b.size := by
   have hs := parseUIntVal_safe b o st h
   unfold parseCLenVal
   rcases hp : parseUIntVal b o st with ⟨o1, e1, s1⟩
@@ -202,9 +203,10 @@ theorem parseCLenVal_safe (b : Buf) (o : Nat) (st : PUIntBody) (h : ClSafe b o s
   cases e1 <;> simp only
   case ok =>
     split
-    · exact ⟨hs.out, fun hh => absurd rfl hh⟩
-    · exact ⟨hs.out, fun _ => hs⟩
-  all_goals exact ⟨hs.out, fun _ => hs⟩
+    · exact ⟨hs.out, (fun hh => absurd rfl hh),
+        (by have h0 : s1.sVal.offs + s1.sVal.len ≤ b.size := hs.out.1; show s1.sVal.offs ≤ b.size; omega)⟩
+    · exact ⟨hs.out, (fun _ => hs), hs.hi⟩
+  all_goals exact ⟨hs.out, (fun _ => hs), hs.hi⟩
 
 /-! ### CSeq -/
 
@@ -229,10 +231,11 @@ theorem CsSafe.out {b : Buf} {i : Nat} {st : PCSeqBody} (h : CsSafe b i st) : Cs
 
 /-- what a finishing step guarantees: the object is sane, and — unless the offset points back at a number that
     is too big — the invariant holds at the returned offset -/
-def CsT (b : Buf) (o : Nat) (e : Err) (st : PCSeqBody) : Prop := CsOut b st ∧ (e ≠ .numTooBig → CsSafe b o st)
+def CsT (b : Buf) (o : Nat) (e : Err) (st : PCSeqBody) : Prop :=
+  CsOut b st ∧ o ≤ b.size ∧ (e ≠ .numTooBig → CsSafe b o st)
 
 theorem CsT.of_safe {b : Buf} {o : Nat} {e : Err} {st : PCSeqBody} (h : CsSafe b o st) : CsT b o e st :=
-  ⟨h.out, fun _ => h⟩
+  ⟨h.out, h.hi, fun _ => h⟩
 
 theorem csSetMethod_safe {b : Buf} {i : Nat} {st : PCSeqBody} (h : CsSafe b i st) (x : CSState) :
     CsSafe b i { csSetMethod st i with state := x } := by
@@ -256,7 +259,8 @@ theorem csFinish_safe (b : Buf) (st : PCSeqBody) (i n crl : Nat) (hfit : b.size 
   have h' := h.mono hin hn
   simp only
   split
-  · exact ⟨⟨h'.out.1, h'.out.2.1, h'.out.2.2.1, h.pnc⟩, fun hh => absurd rfl hh⟩
+  · exact ⟨⟨h'.out.1, h'.out.2.1, h'.out.2.2.1, h.pnc⟩,
+      (by have h0 : st.cseq.offs + st.cseq.len ≤ b.size := h'.out.1; show st.cseq.offs ≤ b.size; omega), fun hh => absurd rfl hh⟩
   · obtain ⟨x, hx⟩ := field_get?_some b st.method (PField.inside_mono h.method h.hi) hfit
     rw [hx]
     exact CsT.of_safe ⟨h'.hi, Nat.zero_le _, h'.cseq, h'.method, h'.v, h'.pnc⟩
